@@ -387,6 +387,25 @@ fn code_point_sweep(sh: &mut Shard) {
         sh.begin(&|| format!("code point U+{:04X}", c as u32));
         sh.count("family:code-points");
         sh.nontrivial(&(c as u32));
+        // between tokens: one of the 11 white-space code points separates, a word character joins, an operator
+        // character is an operator, and ANYTHING else (control characters, other spaces, symbols, marks) is refused
+        let white = "\t\n\u{b}\u{c}\r \u{85}\u{200e}\u{200f}\u{2028}\u{2029}".contains(c);
+        let operator_char = "+-*/%=!<>&|()[]{},;.\"^".contains(c);
+        if white {
+            let two = vec![Stmt::Expr(Expr::Identifier("x".into())), Stmt::Expr(Expr::Identifier("y".into()))];
+            match parse_guarded(&format!("x{c}y")) {
+                Parsed::Ok(ast) if ast == two => {}
+                other => fail(sh, "code-points", &format!("x{c}y"), format!("U+{:04X} is white space: expected two words, got {}", c as u32, match other { Parsed::Ok(a) => format!("{a:?}"), Parsed::Err(e) => format!("refusal {e}"), Parsed::Panic(p) => format!("panic {p}") })),
+            }
+        } else if !(c.is_alphanumeric() || c == '_') && !operator_char {
+            for text in [format!("x{c}y"), format!("{c} 7"), format!("7 {c}"), format!("1{c}2"), format!("{c}"), format!("a = {c}1"), format!("f({c})")] {
+                match parse_guarded(&text) {
+                    Parsed::Err(_) => {}
+                    Parsed::Ok(ast) => fail(sh, "code-points", &text, format!("U+{:04X} is not a character of the language outside literals and comments: must be refused, was accepted as {ast:?}", c as u32)),
+                    Parsed::Panic(p) => fail(sh, "code-points", &text, format!("panic: {p}")),
+                }
+            }
+        }
         for (text, want) in texts {
             match (parse_guarded(&text), want) {
                 (Parsed::Panic(p), _) => fail(sh, "code-points", &text, format!("panic: {p}")),
